@@ -36,6 +36,26 @@ pub enum Mode {
 }
 
 impl Mode {
+    pub fn to_json(&self) -> serde_json::Value {
+        use serde_json::json;
+        match self {
+            Mode::Uniform => json!({"kind": "E1"}),
+            Mode::TieAt { call, iter, depth, dir } => json!({"kind": "E2", "call": call, "iter": iter, "depth": depth, "dir": dir}),
+            Mode::TableAt { call, entry, delta } => json!({"kind": "E3", "call": call, "entry": entry, "delta": delta}),
+            Mode::BiasedWindow { window, sign } => json!({"kind": "E4", "window": window, "sign": sign}),
+        }
+    }
+    pub fn from_json(v: &serde_json::Value) -> Option<Mode> {
+        let u = |k: &str| v.get(k).and_then(|x| x.as_u64());
+        let i = |k: &str| v.get(k).and_then(|x| x.as_i64());
+        Some(match v.get("kind")?.as_str()? {
+            "E1" => Mode::Uniform,
+            "E2" => Mode::TieAt { call: u("call")?, iter: u("iter")?, depth: u("depth")? as u8, dir: i("dir")? as i8 },
+            "E3" => Mode::TableAt { call: u("call")?, entry: u("entry")? as u8, delta: i("delta")? as i8 },
+            "E4" => Mode::BiasedWindow { window: u("window")?, sign: u("sign")? as u8 },
+            _ => return None,
+        })
+    }
     pub fn kind(&self) -> &'static str {
         match self {
             Mode::Uniform => "E1",
